@@ -619,17 +619,29 @@ def helpers_merge_both(prog, an, rep):
 def validation_gates(prog, an, rep):
     R = 'C01.MPT.validation'
     f = need_func(an, Q + '.handle_merge_queues')
+    # the collection: the local bound to build_queue_collection(job)
+    qv = None
+    for st in walk_local(f.node, include_root=False):
+        if isinstance(st, ast.Assign) and len(st.targets) == 1 and \
+                isinstance(st.targets[0], ast.Name) and \
+                isinstance(st.value, ast.Call) and an.call_matches(
+                    f, st.value, Spec.func(BR + '.build_queue_collection')):
+            qv = st.targets[0].id
+    if qv is None:
+        raise AnalysisError('anchor-missing build_queue_collection(...) in '
+                            + f.qname)
     mpt(an, rep, R, f, Spec.func(Q + '.merge_queues'),
-        [Spec.method('validate', r'^queues$')], depth=0,
+        [Spec.method('validate', r'^%s$' % qv)], depth=0,
         why='queues are validated before destinations are fast-forwarded')
     for call in an.direct_calls(f, Spec.func(Q + '.merge_queues')):
         rep.check(len(call.args) == 1 and
-                  src(call.args[0]) == 'queues.mergeable_queues',
+                  canon(f, call.args[0], paths_only=True) ==
+                  qv + '.mergeable_queues',
                   'C01.ARG.validation', f.qname + ': merge_queues consumes '
                   'queues.mergeable_queues', f.where(call),
                   'merge_queues is given %s' % [src(a) for a in call.args])
     # queues is the collection built and validated here
-    qb = [v for _, v in stores_to(f, 'queues') if v is not None]
+    qb = [v for _, v in stores_to(f, qv) if v is not None]
     rep.check(len(qb) == 1 and isinstance(qb[0], ast.Call) and
               an.call_matches(f, qb[0], Spec.func(
                   BR + '.build_queue_collection')), 'C01.ARG.validation',
@@ -767,12 +779,20 @@ def cascade_validate(prog, an, rep):
         f, lambda e: isinstance(e, ast.Call) and
         isinstance(e.func, ast.Attribute) and
         e.func.attr == 'includes_commit')]
-    shapes = sorted((src(t.matched.func.value), src(t.matched.args[0]))
+    def role(e):
+        t_ = canon(f, e)
+        for k in ('DevelopmentBranch', 'StabilizationBranch'):
+            if t_.endswith('[%s]' % k):
+                return k
+        return 'previous' if isinstance(e, ast.Name) else t_
+    shapes = sorted((role(t.matched.func.value), role(t.matched.args[0]))
                     for t in tests)
-    want = sorted([('dev_branch', 'stb_branch'),
-                   ('dev_branch', 'previous_dev_branch')])
+    want = sorted([('DevelopmentBranch', 'StabilizationBranch'),
+                   ('DevelopmentBranch', 'previous')])
+    prev_names = {src(t.matched.args[0]) for t in tests
+                  if role(t.matched.args[0]) == 'previous'}
     rep.evaluated()
-    rep.check(shapes == want, R, f.qname + ': stabilization in development '
+    rep.check(shapes == want and len(prev_names) == 1, R, f.qname + ': stabilization in development '
               'and previous development in development', f.where(),
               'inclusion tests are %s' % shapes, detail=str(shapes))
     for t in tests:
@@ -792,9 +812,10 @@ def cascade_validate(prog, an, rep):
         raise AnalysisError('BranchCascade.validate: expected one loop')
     loop = loops[0]
     head = c.stmt_node[id(loop)]
-    binds = [st for st, v in stores_to(f, 'previous_dev_branch')
+    prev = next(iter(prev_names)) if len(prev_names) == 1 else None
+    binds = [st for st, v in (stores_to(f, prev) if prev else [])
              if inside(loop, st) and
-             v is not None and src(v) == 'dev_branch']
+             v is not None and canon(f, v).endswith('[DevelopmentBranch]')]
     conts = [n.id for n in c.nodes.values() if n.kind == 'continue']
     tb = [s for s in c.succ[head] if c.nodes[s].kind == 'true']
     ok = bool(binds)
